@@ -294,6 +294,26 @@ theorem markKilled_g3 {j0 : JobObj} {d : PIndex} {P : List PodObj} {N : List Str
       exact (hok.rs r hr).setDs _ (by simp [isFinalTaskState]) (fun hf => absurd hf hunf)
     · exact hok.rs r hr
 
+/-- `markDeleted` with a "Killed" marker on recorded refs that are unfinished (pending timeout since the
+repair of F32: the step judges a task by its RECORDED ref) -/
+theorem markKilled_g3_refs {j0 : JobObj} {d : PIndex} {P : List PodObj} {N : List String} {T : List Task} (a : Job) (names : List String)
+    (reason : String) (hg : Good j0 d a) (hok : RefsOK P N T a.status.tasks)
+    (hnames : ∀ r ∈ a.status.tasks, names.contains r.name = true → r.finishTimestamp.isSome = false) :
+    G3 j0 d P N T a (markDeleted a names (fun r =>
+      { r with deletedStatus := some { state := .terminated, result := .killed, reason := reason } })) := by
+  unfold markDeleted
+  refine mapDs_g3 a _ hg hok ?_ ?_
+  · intro r; split <;> exact ⟨rfl, rfl, rfl, rfl, rfl, rfl⟩
+  · intro r hr
+    split
+    · rename_i hc
+      have hunf : ¬ r.finishTimestamp.isSome = true := by
+        intro hf
+        have := hnames r hr hc
+        rw [hf] at this; cases this
+      exact (hok.rs r hr).setDs _ (by simp [isFinalTaskState]) (fun hf => absurd hf hunf)
+    · exact hok.rs r hr
+
 /-- `markDeleted` with the "ForceDeleted" marker (any ref) -/
 theorem markForce_g3 {j0 : JobObj} {d : PIndex} {P : List PodObj} {N : List String} {T : List Task} (a : Job) (names : List String)
     (hg : Good j0 d a) (hok : RefsOK P N T a.status.tasks) :
